@@ -156,6 +156,9 @@ const (
 	fillGrey
 	fillRedHalf
 	fillGradient
+	fillRadialRing  // concentric circles, inner radius > 0
+	fillRadialDisc  // concentric circles, inner radius 0
+	fillRadialFocal // the start circle lies off-centre inside the end circle
 )
 const (
 	strokeNone = iota
@@ -163,6 +166,7 @@ const (
 	strokeBlueHalf
 	strokeRed // same colour as fillRed
 	strokeGradient
+	strokeRadial
 )
 const (
 	joinMiter4 = iota
@@ -244,7 +248,14 @@ var ruleStyles = []styleSpec{
 	{name: "fill red Negative", fill: fillRed, width: 1, rule: -1},
 	{name: "fill red alpha 0.5 + stroke blue Positive", fill: fillRedHalf, stroke: strokeBlue, width: 1, rule: 1},
 	{name: "fill gradient + stroke blue alpha 0.5 Negative", fill: fillGradient, stroke: strokeBlueHalf, width: 1, rule: -1},
+	// styles of family Q only: radial gradients
+	{name: "fill radial gradient, concentric, inner radius 2", fill: fillRadialRing, width: 1},
+	{name: "fill radial gradient, concentric, inner radius 0", fill: fillRadialDisc, width: 1},
+	{name: "fill radial gradient, start circle off-centre", fill: fillRadialFocal, width: 1},
+	{name: "fill red alpha 0.5 + stroke radial gradient w2", fill: fillRedHalf, stroke: strokeRadial, width: 2},
 }
+
+const nRuleStyles = 4 // the first entries of ruleStyles belong to family R, the rest to family Q
 
 var gradStart, gradEnd = canvas.Point{X: 2, Y: 3}, canvas.Point{X: 30, Y: 18}
 var gradC0, gradC1 = color.RGBA{250, 200, 0, 255}, color.RGBA{0, 120, 250, 255}
@@ -257,6 +268,15 @@ func mkGradient() *canvas.LinearGradient {
 }
 
 // a second gradient, other end points and stops
+// mkRadial: three stops, so that the colour at every radius between the circles is distinct.
+func mkRadial(c0 canvas.Point, r0 float64, c1 canvas.Point, r1 float64) *canvas.RadialGradient {
+	g := canvas.NewRadialGradient(c0, r0, c1, r1)
+	g.Add(0, color.RGBA{250, 220, 0, 255})
+	g.Add(0.5, color.RGBA{0, 140, 90, 255})
+	g.Add(1, color.RGBA{20, 0, 230, 255})
+	return g
+}
+
 func mkGradientB() *canvas.LinearGradient {
 	g := canvas.NewLinearGradient(canvas.Point{X: 30, Y: 2}, canvas.Point{X: 4, Y: 20})
 	g.Add(0, color.RGBA{0, 160, 60, 255})
@@ -277,6 +297,12 @@ func (s styleSpec) apply(ctx *canvas.Context) {
 		ctx.SetFillColor(colRedHalf)
 	case fillGradient:
 		ctx.SetFillGradient(mkGradient())
+	case fillRadialRing:
+		ctx.SetFillGradient(mkRadial(canvas.Point{X: 12, Y: 9}, 2, canvas.Point{X: 12, Y: 9}, 9))
+	case fillRadialDisc:
+		ctx.SetFillGradient(mkRadial(canvas.Point{X: 14, Y: 10}, 0, canvas.Point{X: 14, Y: 10}, 12))
+	case fillRadialFocal:
+		ctx.SetFillGradient(mkRadial(canvas.Point{X: 10, Y: 8}, 1, canvas.Point{X: 13, Y: 10}, 11))
 	}
 	switch s.stroke {
 	case strokeNone:
@@ -289,6 +315,8 @@ func (s styleSpec) apply(ctx *canvas.Context) {
 		ctx.SetStrokeColor(colRed)
 	case strokeGradient:
 		ctx.SetStrokeGradient(mkGradientB())
+	case strokeRadial:
+		ctx.SetStrokeGradient(mkRadial(canvas.Point{X: 11, Y: 9}, 1.5, canvas.Point{X: 11, Y: 9}, 10))
 	}
 	ctx.SetStrokeWidth(s.width)
 	ctx.SetStrokeCapper([]canvas.Capper{canvas.ButtCap, canvas.RoundCap, canvas.SquareCap}[s.cap])
@@ -347,7 +375,7 @@ var imagePixels = [][6]color.RGBA{
 	{{230, 20, 20, 255}, {10, 100, 10, 128}, {20, 20, 230, 255}, {0, 0, 0, 0}, {20, 210, 220, 255}, {60, 60, 60, 128}},
 }
 var imageNames = []string{"3x2 image of six opaque colours", "3x2 image with alpha (pixels (1,0) and (2,1) at alpha 128, pixel (0,1) transparent)",
-	"the same 3x2 image with alpha as a sub-image with bounds (2,1)-(5,3) of a 7x5 image of other colours"}
+					"the same 3x2 image with alpha as a sub-image with bounds (2,1)-(5,3) of a 7x5 image of other colours"}
 var imageRes = []float64{0.25, 0.5} // pixels per millimetre: 12 mm x 8 mm and 6 mm x 4 mm
 
 func mkImage(v int) *image.RGBA {
@@ -462,13 +490,23 @@ func toColour(c color.RGBA) colour {
 
 func toPaint(p canvas.Paint) (paint, string) {
 	if p.IsGradient() {
+		var stops canvas.Stops
+		var g *gradient
+		switch gg := p.Gradient.(type) {
+		case *canvas.RadialGradient:
+			stops = append(canvas.Stops(nil), gg.Stops...)
+			g = &gradient{toGrad: ident, radial: true, p0: oracle.Pt{X: gg.C0.X, Y: gg.C0.Y}, r0: gg.R0, p1: oracle.Pt{X: gg.C1.X, Y: gg.C1.Y}, r1: gg.R1, extend: [2]bool{true, true}, alpha: 1,
+				desc: fmt.Sprintf("radial (%g,%g) r=%g -> (%g,%g) r=%g", gg.C0.X, gg.C0.Y, gg.R0, gg.C1.X, gg.C1.Y, gg.R1)}
+		}
 		lg, ok := p.Gradient.(*canvas.LinearGradient)
-		if !ok {
+		if !ok && g == nil {
 			return paint{}, "unsupported gradient type"
 		}
-		stops := append(canvas.Stops(nil), lg.Stops...)
-		g := &gradient{toGrad: ident, p0: oracle.Pt{X: lg.Start.X, Y: lg.Start.Y}, p1: oracle.Pt{X: lg.End.X, Y: lg.End.Y}, extend: [2]bool{true, true}, alpha: 1,
-			desc: fmt.Sprintf("(%g,%g)->(%g,%g) mm, %d stops", lg.Start.X, lg.Start.Y, lg.End.X, lg.End.Y, len(stops))}
+		if ok {
+			stops = append(canvas.Stops(nil), lg.Stops...)
+			g = &gradient{toGrad: ident, p0: oracle.Pt{X: lg.Start.X, Y: lg.Start.Y}, p1: oracle.Pt{X: lg.End.X, Y: lg.End.Y}, extend: [2]bool{true, true}, alpha: 1,
+				desc: fmt.Sprintf("(%g,%g)->(%g,%g) mm, %d stops", lg.Start.X, lg.Start.Y, lg.End.X, lg.End.Y, len(stops))}
+		}
 		g.colourAt = func(t float64) colour {
 			// documented semantics: the colour at offset 0 is at the start, at offset 1 at the end,
 			// linear in between stops, the end colours continue outside
@@ -1352,7 +1390,7 @@ func allFamilies(tier string) []fw.Family {
 
 	// R: the fill rules Positive and Negative (no output format has them: the back-ends must settle the path as the rasterizer does)
 	rPaths := []int{1, 3, len(paths) - 1}
-	radR := []int{len(ruleStyles), len(rPaths), nV, nC}
+	radR := []int{nRuleStyles, len(rPaths), nV, nC}
 	progR := func(i int64) program {
 		g := oracle.Digits(i, radR...)
 		return program{{path: rPaths[g[1]], style: len(styles) + g[0], view: g[2], cs: g[3]}}
@@ -1360,6 +1398,17 @@ func allFamilies(tier string) []fw.Family {
 	fs = append(fs, fw.Family{Name: "R depth 1: fill rules Positive and Negative: 4 styles x {overlapping squares, pentagram, contours of both orientations} x view x coordinate system", N: oracle.Prod(radR...),
 		Check: func(i int64, r *fw.R) { checkProgram(r, progR(i), main3, true) },
 		Desc:  func(i int64) string { return progR(i).String() }})
+
+	// Q: radial gradients (SVG and PDF; the PostScript back-end's gradients are not compared)
+	qPaths := []int{0, 1, 4}
+	radQ := []int{len(ruleStyles) - nRuleStyles, len(qPaths), nV, nC}
+	progQ := func(i int64) program {
+		g := oracle.Digits(i, radQ...)
+		return program{{path: qPaths[g[1]], style: len(styles) + nRuleStyles + g[0], view: g[2], cs: g[3]}}
+	}
+	fs = append(fs, fw.Family{Name: "Q depth 1: radial gradients: {ring, disc, off-centre start circle, stroke} x 3 paths x view x coordinate system", N: oracle.Prod(radQ...),
+		Check: func(i int64, r *fw.R) { checkProgram(r, progQ(i), main3, true) },
+		Desc:  func(i int64) string { return progQ(i).String() }})
 
 	// G: gradients with more stops
 	fs = append(fs, fw.Family{Name: "G gradient stop lists x {SVG, PDF}", N: int64(len(gradientCases) * 2),
